@@ -3,10 +3,11 @@ import LabtechModel.Driver.LdHex
 /-!
 `LOG proxy pre=<hex> ops=<op>,…`            op: `w<hex>` write · `f` flush
    → `ok bufs=x<hex>,… out=x<hex>,…`          (final `bufs`; every `logger_func` message in order)
-`LOG run n=<workers> w=<ems>;<ems>;… sched=<round>/<round>/…`
+`LOG run n=<workers> w=<ems>;<ems>;… sched=<round>/<round>/… [cof=<0|1> fail=<w>,<w>,…]`
    ems: `,`-separated `l<hex>` logger.info · `o<hex>` stdout.write · `e<hex>` stderr.write · `O` / `E` flush
    round: `A|B|C`, each a `,`-separated list of `a<w>.<k>` (advance) / `f<w>` (finish)
-   → `ok exited=<0|1> delivered=<w>:<I|E>:x<hex>,… left=<records still queued> todo=<records not yet put>`
+   (`cof`: continue_on_failure, default 1; `fail`: workers whose outcome is an exception)
+   → `ok exited=<0 running | 1 returned | 2:<w> LabError for w> delivered=<w>:<I|E>:x<hex>,… left=<records still queued> todo=<records not yet put>`
 -/
 namespace Lt.LogCmd
 open Lt.Log Lt.LdHex
@@ -70,18 +71,31 @@ def showRec (x : Nat × Rec) : String :=
   s!"{x.1}:{if x.2.isError then "E" else "I"}:x{encode x.2.text}"
 
 def handleRun (m : List (String × String)) : String :=
-  let parsed : Option (Nat × List (List Emit) × List Round) := do
+  let parsed : Option (Nat × List (List Emit) × List Round × Bool × List Nat) := do
     let n ← (← get m "n").toNat?
     let wstr ← get m "w"
     let ws ← (if n == 0 then some [] else (wstr.splitOn ";").mapM (fun w => (splitList "," w).mapM parseEmit))
     let sched ← (splitList "/" (← get m "sched")).mapM parseRound
-    if ws.length == n then pure (n, ws, sched) else none
+    let cof ← match get m "cof" with
+      | none => some true
+      | some "1" => some true
+      | some "0" => some false
+      | _ => none
+    let fail ← match get m "fail" with
+      | none => some []
+      | some f => (splitList "," f).mapM String.toNat?
+    if ws.length == n then pure (n, ws, sched, cof, fail) else none
   match parsed with
   | none => "bad-op"
-  | some (n, ws, sched) =>
-    let s := loop (init n (fun w => workerRecords (ws.getD w []))) sched
+  | some (n, ws, sched, cof, fail) =>
+    let r := runLoop cof (fun w => fail.contains w) (init n (fun w => workerRecords (ws.getD w []))) sched
+    let s := r.1
+    let ex := match r.2 with
+      | .running => "0"
+      | .returned => "1"
+      | .raised w => s!"2:{w}"
     let todo := (List.range n).foldl (fun acc w => acc + (s.todo w).length) 0
-    s!"ok exited={if allConsumed s then 1 else 0} delivered={",".intercalate (s.delivered.map showRec)} left={s.logq.length} todo={todo}"
+    s!"ok exited={ex} delivered={",".intercalate (s.delivered.map showRec)} left={s.logq.length} todo={todo}"
 
 def handle (parts : List String) : String :=
   match parts with
